@@ -20,7 +20,7 @@ def obligations(tier):
     n = 3 if tier == "quick" else 5
     obs = [Ob(f"C04.route/{k}", "c04", "c_route", {"VF_KIND": i, "VF_NSP": n, "VF_NSC": n}, t, FN,
               f"target table spelled with one of {n} name spellings x {n} schema spellings, statement addressed with an independent pair (all symbolic); "
-              "other table = same name in another schema / other name / near name t_; table order symbolic")
+              "other table = same name in another schema / other name / near name t$; table order symbolic")
            for i, k in enumerate(KINDS)]
     obs.append(Ob("C04.seq/3_alters", "c04", "c_seq", {}, t, FN, "three ALTER statements, each any of 7 kinds (symbolic): add / rename / drop / foreign key, on one table"))
     obs.append(Ob("C04.norun/cross_run", "c04", "c_no_cross_run", {"VF_KIND": 0, "VF_NSP": n}, t, FN,
